@@ -74,6 +74,17 @@ class Builder:
         self._loop_stack = []
         self.exp_aliases = set()
         self.rep_aliases = set()
+        # locals that are only ever plain copies of one other name (candidates for the aliases above)
+        defs = {}
+        for n in ast.walk(fn_node):
+            if isinstance(n, ast.Name) and isinstance(n.ctx, (ast.Store, ast.Del)):
+                defs.setdefault(n.id, []).append(None)
+        for n in ast.walk(fn_node):
+            if isinstance(n, ast.Assign) and len(n.targets) == 1 and isinstance(n.targets[0], ast.Name) and isinstance(n.value, ast.Name):
+                lst = defs.get(n.targets[0].id, [])
+                if None in lst:
+                    lst[lst.index(None)] = n.value.id
+        self.pure_copies = {k for k, v in defs.items() if v and None not in v and len(set(v)) == 1}
         self.append_states = {}  # id(append statement) -> abstract states reaching it
         self._counter = None
         self._find_acc()
@@ -141,9 +152,9 @@ class Builder:
                     self.taint[name] = self.taint.get(name, set()) | self._roles(value)
                     self.local_values.setdefault(name, []).append(value)
                     # a plain copy of a loop variable plays that variable's role (`exp = exponent_of_entry`)
-                    if isinstance(value, ast.Name) and self._is_exp(value.id):
+                    if name in self.pure_copies and isinstance(value, ast.Name) and self._is_exp(value.id):
                         self.exp_aliases.add(name)
-                    elif isinstance(value, ast.Name) and self._is_rep(value.id):
+                    elif name in self.pure_copies and isinstance(value, ast.Name) and self._is_rep(value.id):
                         self.rep_aliases.add(name)
             return states
         if isinstance(node, ast.AugAssign):
